@@ -1,7 +1,7 @@
 (* C13 - Staked SYM is locked for the life of the stake; voting power follows the stakes.
    Pinned statements only; proofs in STF/Proofs/Stakes.v. *)
 From MelVerif Require Import STF.Model STF.Proofs.Stakes STF.Proofs.Frame STF.Proofs.SealCoins STF.Proofs.HashFacts
-  STF.Proofs.BatchSupply STF.Proofs.SealCounts STF.Proofs.History STF.Proofs.StakeHistory.
+  STF.Proofs.BatchSupply STF.Proofs.SealCounts STF.Proofs.History STF.Proofs.StakeHistory STF.Proofs.Confirm STF.Proofs.Votes.
 Open Scope N_scope.
 
 (* registration: exactly when the transaction is a stake transaction whose data decodes to a document d,
@@ -97,3 +97,9 @@ Theorem C13_locked_for_life : forall SO h i, i < 256 -> forall d c ops s,
   Locked h i d c s -> hist_all SO (stake_step_ok SO h d) s ops -> Locked h i d c (fold_left (hstep SO) ops s).
 Proof. exact staked_coin_locked_for_life. Qed.
 Print Assumptions C13_locked_for_life.
+
+(* voting power follows the stakes: the votes of pairwise different keys are disjoint parts of the active stake *)
+Theorem C13_votes_partition_the_active_stake : forall st epoch keys, NoDup keys ->
+  fold_right (fun k acc => votes st epoch k + acc) 0 keys <= total_votes st epoch.
+Proof. exact distinct_keys_votes_le_total_nodup. Qed.
+Print Assumptions C13_votes_partition_the_active_stake.
